@@ -159,6 +159,16 @@ func voOpenAgain(w *voWorld, h *voHist, b voBounds, peers int, p int) {
 			verifReach("plain-restart-without-usable-marker")
 		}
 	}
+	if h.tamper == voTamperInterruptedRecovery {
+		if recovering {
+			verifReach("recovery-over-an-interrupted-recovery")
+		} else {
+			verifReach("plain-restart-after-an-interrupted-recovery")
+		}
+	}
+	if h.tamper == voTamperForeignRecoveryDB && recovering {
+		verifReach("recovery-next-to-a-foreign-temporary-database")
+	}
 	if vouchedBefore && (h.tamper == voTamperCRC0 || h.tamper == voTamperCheckpoint || h.tamper == voTamperCheckpointSameTime) {
 		verifReach("marker-tampered-file-still-vouched-for")
 	}
@@ -230,6 +240,7 @@ func voRun(w *voWorld, entry string, b voBounds) *voHist {
 	voCheckTags("C33-new-node-is-empty", got, ok, nil)
 
 	for p := 0; p < b.reopens; p++ {
+		w.round = p
 		if w.electable {
 			n := w.choose(verifName("operations-in-period-", p), b.maxOps[p]+1)
 			for i := 0; i < n; i++ {
@@ -296,6 +307,51 @@ func VerifC33bWhileDown() {
 	w := voNewWorld()
 	defer w.cleanup()
 	voRun(w, "VerifC33bWhileDown", b)
+}
+
+// VerifC33bInterrupted: an earlier manual recovery of the node was killed while it replayed the log
+// (its temporary database and WAL lie in the data directory, holding the newest snapshot's state
+// plus the first k replayed commands, k = 0 .. all). The operator starts the node again - with the peers file still in
+// place (the recovery runs again), with another one, or without (plain restart). The node must
+// serve exactly what it had applied, each write once ("rebuilt during manual recovery" is one of
+// the apply paths of C01 that has to arrive at the same state as the live one).
+func VerifC33bInterrupted() {
+	b := voBounds{reopens: 1, maxOps: []int{3}, ops: []int{voOpWrite, voOpSnapKeep1, voOpRewrite},
+		tampers: []int{voTamperInterruptedRecovery},
+		peers:   []int{voPeersNone, voPeersSelf}, closeOpt: []int{0, 1}}
+	if verifTier() == 1 {
+		b.ops = voAllOps
+		b.peers = []int{voPeersNone, voPeersSelf, voPeersThree, voPeersGarbage}
+	}
+	w := voNewWorld()
+	defer w.cleanup()
+	voRun(w, "VerifC33bInterrupted", b)
+}
+
+// VerifC33bForeign: the same histories, a database of another lineage lies where the temporary
+// database of a recovery goes (main file, with or without a WAL file).
+func VerifC33bForeign() {
+	b := voBounds{reopens: 1, maxOps: []int{3}, ops: []int{voOpWrite, voOpSnapKeep1, voOpRewrite},
+		tampers: []int{voTamperForeignRecoveryDB},
+		peers:   []int{voPeersNone, voPeersSelf}, closeOpt: []int{0, 1}}
+	if verifTier() == 1 {
+		b.ops = voAllOps
+		b.peers = []int{voPeersNone, voPeersSelf, voPeersThree, voPeersGarbage}
+	}
+	w := voNewWorld()
+	defer w.cleanup()
+	voRun(w, "VerifC33bForeign", b)
+}
+
+// VerifC33bInterruptedTwice (thorough): two rounds, each down time may see an interrupted recovery
+// or a foreign temporary database (a recovery after an interrupted one after a completed one ...).
+func VerifC33bInterruptedTwice() {
+	b := voBounds{reopens: 2, maxOps: []int{2, 1}, ops: []int{voOpWrite, voOpSnapKeep1, voOpRewrite},
+		tampers: []int{voTamperNone, voTamperInterruptedRecovery, voTamperForeignRecoveryDB},
+		peers:   []int{voPeersNone, voPeersSelf}, closeOpt: []int{0, 1}}
+	w := voNewWorld()
+	defer w.cleanup()
+	voRun(w, "VerifC33bInterruptedTwice", b)
 }
 
 // VerifC33bTwice: two rounds - what the first open leaves behind is what the second one finds
